@@ -329,6 +329,18 @@ where
                                 msg_epoch,
                             );
 
+                            // The restored group record carries the last-message pointer of
+                            // snapshot time. Recompute it from the messages that are still valid.
+                            if self
+                                .refresh_last_message_pointer(&group.mls_group_id)
+                                .is_err()
+                            {
+                                tracing::warn!(
+                                    target: "mdk_core::messages::process_message",
+                                    "Failed to refresh last message pointer after rollback"
+                                );
+                            }
+
                             // Find messages that failed to decrypt because we had the wrong
                             // commit's keys. Now that we've rolled back and will apply the
                             // correct commit, these can potentially be decrypted.
@@ -417,6 +429,25 @@ where
                 self.fail_unprocessable(event.id, &error, group)
             }
         }
+    }
+
+    /// Points the group's cached last-message fields at the first message of the default
+    /// display order that is not epoch-invalidated (or clears them if there is none).
+    fn refresh_last_message_pointer(&self, mls_group_id: &GroupId) -> Result<()> {
+        let mut stored_group = self.get_group(mls_group_id)?.ok_or(Error::GroupNotFound)?;
+        let pagination = mdk_storage_traits::groups::Pagination::new(
+            Some(mdk_storage_traits::groups::MAX_MESSAGE_LIMIT),
+            Some(0),
+        );
+        let newest_valid = self
+            .get_messages(mls_group_id, Some(pagination))?
+            .into_iter()
+            .find(|m| m.state != message_types::MessageState::EpochInvalidated);
+
+        stored_group.last_message_id = newest_valid.as_ref().map(|m| m.id);
+        stored_group.last_message_at = newest_valid.as_ref().map(|m| m.created_at);
+        stored_group.last_message_processed_at = newest_valid.as_ref().map(|m| m.processed_at);
+        self.save_group_record(stored_group)
     }
 
     /// Extracts the MLS group ID from an event's h-tag
